@@ -26,7 +26,7 @@ class ConstantGate(
         See :class:`Gate` for more info.
         """
         self.check_parameters(params)
-        return np.array([])
+        return np.zeros((0, self.dim, self.dim), dtype=np.complex128)
 
     def optimize(self, env_matrix: npt.NDArray[np.complex128]) -> list[float]:
         """
